@@ -189,11 +189,13 @@ def gen_fileset(tape, side, H):
             mult = tape.pick([1, 1, 2, 3], f"mult{side}")
             day_left = 24 - (k * fs["L"]) % 24          # stay inside the day directory
             mult = max(1, min(mult, day_left // fs["L"]))
-        npts = tape.count(1, 4, f"np{side}", (1, 2))
+        npts = tape.count(1, 6, f"np{side}", (3, 4))
         pts = []
         for _ in range(npts):
             off = tape.choice(fs["L"] * mult * 3600, f"t{side}")
-            c = tape.choice(len(CLUSTERS), f"c{side}")
+            if tape.flag(f"snap{side}", 1, 2):
+                off -= off % 600          # many points share round times
+            c = [0, 0, 1, 3, 0, 2][tape.choice(6, f"c{side}")]
             j = tape.choice(4, f"j{side}")
             pts.append([off, c, j])
         files.append({"k": k, "pts": pts, "mult": mult})
@@ -505,6 +507,16 @@ def _oracle(w, st, sim, outcome, policy, out_fs, procs, queues):
             sim.probe("result_put_blocked_on_full_queue")
     if w["unreadable"] and st.fired.get("unreadable_file"):
         sim.probe("unreadable_file_skipped")
+    # a secondary file needed by >= 2 primaries (align cache / usage counter)
+    mi_td = timedelta(seconds=w["max_interval"])
+    for fb in w["B"]["files"]:
+        b0, b1 = _times(w, "B", fb["k"])
+        n_over = sum(1 for fa in w["A"]["files"]
+                     if _times(w, "A", fa["k"])[0] <= b1 + mi_td
+                     and _times(w, "A", fa["k"])[1] >= b0 - mi_td)
+        if n_over >= 2:
+            sim.probe("secondary_shared_by_primaries")
+            break
     if end == "deadlock":
         return [_viol("C05/deadlock", outcome["detail"])], info
     if end == "stepcap":
@@ -565,6 +577,9 @@ def _oracle(w, st, sim, outcome, policy, out_fs, procs, queues):
                 V.append(_viol("C05/output-names-yielded",
                                f"yielded {sorted(map(str, names))[:5]} vs on disk {ondisk[:5]}"))
     info["found"] = len(found)
+    n_results = len(outcome["yielded"]) if w["output"] != "search" else len(st.writes)
+    if w["bundle"] is not None and len(procs) == 1 and n_results >= 2:
+        sim.probe("bundle_flushed_at_tag_change")
     # ---- compare with the brute force ----------------------------------------
     exp = set(sure)
     if w["unreadable"]:
